@@ -150,3 +150,60 @@ def compare_quic(an, ends, conn, server_port=None):
             return ("datagram_direction" if g[1] == w[1] else "datagram_payload"), \
                    f"datagram {i}: got ({g[0]},{len(g[1])}B) want ({w[0]},{len(w[1])}B)"
     return "mismatch", ""
+
+
+# ---- multi-flow captures -----------------------------------------------------------------------------
+
+class Flow:
+    """one modelled connection placed in a capture"""
+
+    def __init__(self, kind, conn, ends, conn_id, pkts):
+        self.kind, self.conn, self.ends, self.id, self.pkts = kind, conn, ends, conn_id, pkts
+
+    def keylog(self):
+        return list(self.conn.keylog)
+
+
+def tls_flow(scn, seed, idx, v6=False, server_port=443, key=(), **kw):
+    conn = tls_conn(scn, seed, key=("flow", idx) + tuple(key))
+    ends = cap.Ends(idx, v6=v6, server_port=server_port)
+    return Flow("tls", conn, ends, idx, tls_packets(conn, conn_id=idx, **kw))
+
+
+def quic_flow(scn, seed, idx, v6=False, server_port=443, key=()):
+    conn = quic_conn(scn, seed, key=("flow", idx) + tuple(key))
+    ends = cap.Ends(idx, v6=v6, server_port=server_port)
+    return Flow("quic", conn, ends, idx, quic_packets(conn, conn_id=idx))
+
+
+def round_robin(lists):
+    out = []
+    its = [list(l) for l in lists]
+    while any(its):
+        for l in its:
+            if l:
+                out.append(l.pop(0))
+    return out
+
+
+def flow_export(an, flow, server_port=None):
+    """canonical description of what the output holds for one flow (frames + timestamps)"""
+    if flow.kind == "tls":
+        c = tcp_streams(an, flow.ends, server_port)
+        if c is None:
+            return None
+        return ("tcp", c["c2s"], c["s2c"], tuple((ts, d, p) for ts, d, p, _ in c["data"]), tuple(c["hs_ts"]))
+    ex = udp_export(an, flow.ends, server_port)
+    return ("udp", tuple(ex)) if ex else None
+
+
+def flow_raw_packets(an, flow):
+    """every output packet (timestamp, raw frame) that belongs to the flow's endpoints, for byte-identity checks"""
+    ck = flow.ends.client.key()
+    sip = flow.ends.server.ip
+    out = []
+    for ts, fr in an["packets"]:
+        a, b = (fr.src_ip, fr.sport), (fr.dst_ip, fr.dport)
+        if (a == ck and b[0] == sip) or (b == ck and a[0] == sip):
+            out.append((ts, fr.raw))
+    return out
